@@ -47,7 +47,9 @@ def document(draw, dups=False, max_paras=3, max_fields=3):
         if dups:
             names = draw(st.lists(st.sampled_from(DUP_NAMES), min_size=1, max_size=max_fields + 1))
         else:
-            names = draw(st.lists(st.sampled_from(NAMES), min_size=1, max_size=max_fields,
+            # unique (case-insensitively) inside a paragraph; another paragraph may spell the
+            # same name in another case
+            names = draw(st.lists(st.sampled_from(NAMES + DUP_NAMES), min_size=1, max_size=max_fields,
                                   unique_by=lambda s: s.lower()))
         paras.append([draw(field(n)) for n in names])
     return {"lead": draw(st.sampled_from(LEADS)), "paras": paras,
